@@ -68,6 +68,17 @@ CLAIMS = {
             "when everything is complete, running() is true while a system runs and false only when all finished, dispatches never overlap or get lost, "
             "thread-local systems only inside wait on the caller.",
             "TLC model checking of Async.tla + real async sessions validated by ShredTrace (InvC15, InvC04x, InvC12)", "DESIGN.md §5 C15"),
+    "C16": ("Par/Seq trees: ParSeq.tla (tree as a table; construction child by child with the Par::with check of the three intersections under debug "
+            "assertions; LeafFetch/LeafFinish enabled iff no seq ancestor has an unfinished earlier child) checked for all trees with <= 5 leaves and every "
+            "interleaving; every emitted tree is built from the REAL Par/Seq/Nil constructors (run-time adapter + compile-time par!/seq! types), with() "
+            "outcomes, reads/writes and setup compared; TLC schedules forced on the real tree with leaves held inside run; random deep trees dispatched "
+            "from outside / inside / a foreign pool and validated by ParSeqTrace.",
+            "TLC model checking of ParSeq.tla + trees/schedules replayed on the real Par/Seq nodes + ParSeqTrace validation (InvC16Tr*)", "DESIGN.md §5 C16"),
+    "C17": ("Meta table: Meta.tla (the three parallel tables, world presence, live guards and iterators, every call with its outcome some/none/panic_cast/"
+            "panic_borrow) explored exhaustively; every register sequence (with repeats) x presence subset x get/get_mut/iter/iter_mut history is replayed on "
+            "the real MetaTable/World with self-reporting implementing types of different sizes (address, tag, per-type method), borrow state probed after "
+            "every call; random long real histories validated by MetaTrace.",
+            "TLC model checking of Meta.tla + histories replayed on the real MetaTable + MetaTrace validation (InvC17Tr*)", "DESIGN.md §5 C17"),
     "C18": ("Builder totality: Planner.tla with the two reject actions at every position (C18Action) and the capacity invariant; real builder calls under "
             "catch_unwind: panic iff ill-formed, message quotes an offending name, nothing changed; long sequences, funnels into one group, unnamed systems.",
             PLN + " (InvC18, InvCap, C18Action)", "DESIGN.md §5 C18"),
